@@ -588,6 +588,10 @@ func (sc *ServerConfig) UDPRelay(logger *zap.Logger, maxClientPackerHeadroom zer
 
 	switch sc.Protocol {
 	case "direct":
+		if sc.TunnelUDPTargetOnly && !sc.TunnelRemoteAddress.IsIP() {
+			// Replies are compared with the tunnel address by IP and port.
+			return nil, errors.New("tunnelUDPTargetOnly requires tunnelRemoteAddress to be an IP address")
+		}
 		natServer = direct.NewDirectUDPNATServer(sc.TunnelRemoteAddress, sc.TunnelUDPTargetOnly)
 
 	case "tproxy":
